@@ -53,10 +53,10 @@ def main(tier):
     nsim = 60 if quick else 1500
     sims, sim = layerb.generate_behaviours("PyDRexC08", "PyDRexC08Sim", nsim, 14, SEED + 8)
     chk.add_tlc("PyDRexC08(simulate, MaxUpd=3)", sim, f"{nsim} random interleavings, 3 flows, 3 updates per mineral")
-    nflt = 40 if quick else 800
+    nflt = 24 if quick else 800
     flts, fsim = layerb.generate_behaviours("PyDRexC08", "PyDRexC08FaultSim", nflt, 16, SEED + 9)
     chk.add_tlc("PyDRexC08(simulate, client faults)", fsim, f"{nflt} random interleavings with failing single / bulk updates in between (UpdateFaulted, UpdateAllFaulted)")
-    nlife = 40 if quick else 800
+    nlife = 24 if quick else 800
     life_mc = run_tlc("PyDRexC08", "PyDRexC08Life", workers=4, timeout=900)
     chk.add_tlc("PyDRexC08(object life cycle)", life_mc, "every interleaving of updates, failing updates and ONE Clone (deepcopy / pickle) up to 3 calls: LifeNonInterference (a clone evolves as the solo mineral its original was), LifeTwins, FailureAtomic")
     lifes, lsim = layerb.generate_behaviours("PyDRexC08", "PyDRexC08LifeSim", nlife, 13, SEED + 10)
